@@ -94,6 +94,12 @@ impl<'a> PrettyPrinter<'a> {
         if let Some(res) = self.check_disabled(expr.to_untyped()) {
             return res;
         }
+        // The flag only concerns the expression that directly follows the `#`.
+        let after_hash = ctx.after_hash;
+        let ctx = ctx.with_after_hash(false);
+        if let (true, Expr::Parenthesized(paren)) = (after_hash, expr) {
+            return self.convert_parenthesized_after_hash(ctx, paren);
+        }
         self.convert_expr_impl(ctx, expr)
     }
 
